@@ -613,6 +613,19 @@ func famCliMeth(o *Out, r *RNG, thorough bool) {
 				}
 			}
 		}
+		// header values a server may send with a good answer: entity tags that are not quoted strings (cut short, weak,
+		// empty), dates and lengths that are no dates or lengths -- the call returns (value or error), it never panics
+		if m.kind == "getobj" || m.kind == "putobj" || m.kind == "options" {
+			ct, body := goodBody(m)
+			for _, etag := range []string{"\"", "W/\"", "W/", "", "\"\"", "e", "\"e", "e\"", "W/\"e\"", "\"\\", "\"a\\\"", "'e'", "\"é\""} {
+				for _, lm := range []string{"Sun, 10 Mar 2024 01:00:00 GMT", "", "yesterday", "Sun, 10 Mar 2024"} {
+					for _, st := range []int{200, 201, 204} {
+						h := http.Header{"Dav": {"1, 3, addressbook, calendar-access"}, "Etag": {etag}, "Last-Modified": {lm}, "Content-Length": {"-5"}}
+						emitCliMeth(o, m, &scriptClient{status: st, ctype: ct, body: body, header: h}, "( header )", false)
+					}
+				}
+			}
+		}
 		if !strings.HasPrefix(m.kind, "ms-") && m.kind != "getobj" {
 			continue
 		}
